@@ -604,6 +604,8 @@ Lemma kind1 x : kind_of x = 1%N -> aw x = true /\ is_lock_pc (apc x) = true.
 Proof. unfold kind_of. destruct (is_lock_pc (apc x)), (aw x); intros H; try discriminate; auto. Qed.
 Lemma kind0 x : kind_of x = 0%N -> aw x = false /\ is_lock_pc (apc x) = true.
 Proof. unfold kind_of. destruct (is_lock_pc (apc x)), (aw x); intros H; try discriminate; auto. Qed.
+Lemma kind_reader x : (N.eqb (kind_of x) 0 || N.eqb (kind_of x) 2)%bool = true -> aw x = false.
+Proof. unfold kind_of. destruct (is_lock_pc (apc x)), (aw x); intros H; try discriminate; auto. Qed.
 
 Lemma code2_wait p : code_pc p = 2%N -> exists ch, p = LWait ch.
 Proof. destruct p; cbn; intros H; try discriminate. eauto. Qed.
@@ -646,7 +648,7 @@ Proof.
     + intros Hg Hk H3. apply Hnw. rewrite E3, R5 in Hg. apply N.eqb_neq in Hg. apply F4.
       * destruct (is_held (apc x)) eqn:Eh; [|reflexivity]. apply code3_held in Eh. contradiction.
       * now apply code3_held.
-      * destruct (kind0 _ Hk) as [Haw _]. congruence.
+      * pose proof (kind_reader _ Hk) as Haw. congruence.
   - cbn [desc_of tgt_h] in *. rewrite !orb_false_r in *. unfold Q1. cbn [dk dc drel dcanc dw] in *.
     destruct (code_nocall s (HRel t f)) as [N3 _]; [intros k; discriminate|].
     repeat split; try congruence; intros; try discriminate.
